@@ -302,8 +302,8 @@ Definition private_key (k : keymat) : result bytes N :=
   else if negb (k_ec2 k) then Err CTAP2_InvalidCredential
   else match k_d k with Some d => Ok d | None => Err CTAP2_InvalidCredential end.
 
-(** [u32::saturating_add(1)] *)
-Definition counter_next (n : N) : N := if n <? 4294967295 then n + 1 else 4294967295.
+(** [u32::saturating_add(1)]; counters are u32, so at the maximum the value stays what it is *)
+Definition counter_next (n : N) : N := if n <? 4294967295 then n + 1 else n.
 
 Section Encoders.
 (** the byte encoding of authenticator data (Wire/AuthData.v), needed for the signed message *)
